@@ -141,7 +141,7 @@ def depth_of(design):
     return dep(design["top"])
 
 
-def judge(rec, label, design, must_flatten, sample=False):
+def judge(rec, label, design, must_flatten, sample=False, history=False):
     import hdl21 as h
 
     inv = refsem.validate(design)
@@ -154,15 +154,47 @@ def judge(rec, label, design, must_flatten, sample=False):
              sample={"label": label, "depth": depth_of(design), "leaves": len(ref1.leaves), "top": design["modules"][-1]} if sample else None)
     try:
         built = build.build(design)
-        pkg = h.to_proto(built.top)
-        hier = pkgread.flatten(pkg)
     except Exception as e:
         rec.count("outcome.base-rejected")
         return
+    flat_m = judge_module(rec, label, built.top, case, must_flatten)
+    if history and flat_m is not None:
+        # the flat result is asked whether it is flat, then EXTENDED by a hierarchical instance and flattened again
+        from hdl21.flatten import is_flat
+
+        subs = [m for n, m in built.modules.items() if m is not built.top]
+        if subs:
+            rec.count("history.extended-after-flatten")
+            try:
+                from hdl21.flatten import flatten as hflatten
+
+                flat_m = hflatten(built.top)  # a second, not yet exported (so still editable) flat copy
+                was = is_flat(flat_m)
+                sub = subs[-1]
+                conns = {pn: flat_m.add(h.Signal(width=p.width), name=f"zz_ext_{pn}") for pn, p in sub.ports.items()}
+                flat_m.add(h.Instance(of=sub)(**conns), name="zz_ext")
+            except Exception as e:
+                rec.count("history.extension-refused")
+                return
+            if not was:
+                rec.violation("flat-module-not-flat", f"[{label}] is_flat() of the module returned by flatten() is False", case=case)
+            judge_module(rec, label + " (extended after flatten)", flat_m, case, must_flatten)
+
+
+def judge_module(rec, label, top, case, must_flatten):
+    """Compare flatten(top) with top itself (both read back from their exported packages).  Returns the flat module or None."""
+    import hdl21 as h
+
+    try:
+        pkg = h.to_proto(top)
+        hier = pkgread.flatten(pkg)
+    except Exception as e:
+        rec.count("outcome.base-rejected")
+        return None
     try:
         from hdl21.flatten import flatten as hflatten
 
-        flat_m = hflatten(built.top)
+        flat_m = hflatten(top)
     except Exception as e:
         rec.count("outcome.flatten-rejected")
         rec.hist("flatten_rejections", oracle.exc_sig(e)[:70])
@@ -177,7 +209,7 @@ def judge(rec, label, design, must_flatten, sample=False):
         rec.violation("flat-module-unexportable", f"[{label}] the module returned by flatten() cannot be exported/read: {oracle.exc_sig(e)[:140]}", case=case)
         return
     rec.count("oracle.compared")
-    rec.hist("depths", depth_of(design))
+    rec.hist("flat_leaves", min(len(flat.leaves), 20))
     # only leaf instances, one per leaf device
     deep = [p for p in flat.leaves if len(p) != 1]
     if deep or len(fpkg.modules) != 1 and any(i.module.WhichOneof("to") == "local" for i in fpkg.modules[-1].instances):
@@ -210,6 +242,7 @@ def judge(rec, label, design, must_flatten, sample=False):
     if diffs:
         rec.violation("flatten-changes-connectivity", f"[{label}] flatten() changed the circuit: " + "; ".join(diffs[:3]), case=case,
                       names_have_colon=names_have_colon)
+    return flat_m
 
 
 def colon_shared_designs():
@@ -252,7 +285,7 @@ def run(ctx, rec):
     if ctx.nshards > 1:
         n = n // 2
     for k in range(n):
-        judge(rec, f"hier #{k}", gen_design(rng), True, sample=(k % 250 == 1))
+        judge(rec, f"hier #{k}", gen_design(rng), True, sample=(k % 250 == 1), history=(k % 4 == 0))
     for k in range(n // 4):
         judge(rec, f"colon-names #{k}", gen_design(rng, collide=True), True, sample=(k % 250 == 1))
     for k in range(n // 5):
@@ -265,4 +298,4 @@ def shards(ctx):
 
 
 def replay(ctx, rec, case):
-    judge(rec, case.get("label", "replay"), case["design"], case.get("must_flatten", True), sample=True)
+    judge(rec, case.get("label", "replay"), case["design"], case.get("must_flatten", True), sample=True, history=True)
